@@ -26,8 +26,8 @@ const (
 var c18Ctx3 = []string{"Add", "Sub", "Mul", "Quo", "QuoInteger", "Rem", "Pow", "Cmp"}
 var c18Ctx2 = []string{"Abs", "Neg", "Round", "Sqrt", "Cbrt", "Exp", "Ln", "Log10", "RoundToIntegralValue", "RoundToIntegralExact", "Ceil", "Floor", "Reduce"}
 var c18Read1 = []string{"Sign", "Size", "String", "Text", "Sprintf", "Int64", "Float64", "Decompose", "MarshalText"}
-var c18Read2 = []string{"DCmp", "CmpTotal"}
-var c18Dec2 = []string{"DSet", "DNeg", "DAbs", "DReduce", "Compose"}
+var c18Read2 = []string{"DCmp", "CmpTotal", "CoeffRead"}
+var c18Dec2 = []string{"DSet", "DNeg", "DAbs", "DReduce", "Compose", "NewWithBigInt"}
 var c18DecSet = []string{"SetInt64", "SetFinite", "SetFloat64", "DSetString", "UnmarshalText", "Scan"}
 var c18ED3 = []string{"EDAdd", "EDSub", "EDMul", "EDQuo", "EDQuoInteger", "EDRem", "EDPow"}
 var c18ED2 = []string{"EDAbs", "EDNeg", "EDRound", "EDSqrt", "EDExp", "EDLn", "EDLog10", "EDRoundToIntegralValue", "EDRoundToIntegralExact", "EDCeil", "EDFloor", "EDReduce"}
@@ -96,11 +96,7 @@ func genStep(r *plan.Rng, nctx, nshared, nregs int, sharedProb int, heavyOK bool
 			st.N = int64(r.U64()>>uint(r.Intn(64))) - int64(r.Intn(1000))
 			st.S = GenParseString(r)
 		case k < 91:
-			if r.Bool() {
-				st.Op = "CtxSetString"
-			} else {
-				st.Op = "CtxNewFromString"
-			}
+			st.Op = []string{"CtxSetString", "CtxNewFromString", "PkgNewFromString"}[r.Intn(3)]
 			st.S = GenParseString(r)
 		case k < 92:
 			st.Op = "WithPrecision"
@@ -136,9 +132,9 @@ func genStep(r *plan.Rng, nctx, nshared, nregs int, sharedProb int, heavyOK bool
 }
 
 // GenC18 builds the world and programs of one run (no schedule yet).
-func GenC18(seed, run uint64, tier string) *plan.Plan {
+func GenC18(seed, run uint64, tier, mode string) *plan.Plan {
 	r := plan.NewRng(plan.Derive(seed, run, 18))
-	p := &plan.Plan{V: 1, Property: "C18", Workload: "c18", Seed: seed, Run: run, Race: true}
+	p := &plan.Plan{V: 1, Property: "C18", Workload: "c18", Mode: mode, Seed: seed, Run: run, Race: true, Cold: mode == "cold"}
 	maxPrec := uint32(20)
 	switch r.Intn(8) {
 	case 0:
@@ -197,11 +193,13 @@ func GenC18(seed, run uint64, tier string) *plan.Plan {
 
 // c18World is the instantiated world of a plan.
 type c18World struct {
-	ctxs     []*apd.Context
-	shared   []*apd.Decimal
-	snapS    []RawDec
-	snapC    []RawCtx
-	violated string // first I-shared violation (written in norace code)
+	globalsSuspect uint64 // monitor calls at which the raw hash of package state differed
+	ticks          uint64
+	ctxs           []*apd.Context
+	shared         []*apd.Decimal
+	snapS          []RawDec
+	snapC          []RawCtx
+	violated       string // first I-shared violation (written in norace code)
 }
 
 var theWorld *c18World
@@ -223,6 +221,12 @@ func c18Monitor() {
 			w.violated = "c" + itoa(i)
 			return
 		}
+	}
+	// package state: raw hash at every 16th call (it is ~20 KB of memory);
+	// a difference is decided by the deep comparison after the tasks joined
+	w.ticks++
+	if gs := globalSnap; gs != nil && w.ticks&15 == 0 && !gs.FastSame() {
+		w.globalsSuspect++
 	}
 }
 
@@ -268,6 +272,7 @@ type c18TaskRun struct {
 	env  Env
 	base []stepBase
 	viol *plan.Violation
+	hung bool
 	// per-task result digest
 	digest uint64
 }
@@ -319,130 +324,202 @@ func runC18(p *plan.Plan, keepLog bool, soloOnly bool) (*plan.Result, *C18Stats)
 	}
 	theWorld = w
 	defer func() { theWorld = nil }()
+	gs := globalSnap
 
 	addViol := func(v plan.Violation) {
 		res.Violations = append(res.Violations, v)
 	}
-
-	// Phase 1: solo baselines, on this goroutine.
 	runs := make([]*c18TaskRun, len(p.Tasks))
-	setMode(modeCount)
-	sRecordHot = true
-	for ti := range p.Tasks {
-		tk := &p.Tasks[ti]
-		tr := &c18TaskRun{env: buildTaskEnv(w, tk, w.ctxs[0])}
-		tr.base = make([]stepBase, len(tk.Steps))
-		var a Args
-		var local uint64
-		for si := range tk.Steps {
-			st := &tk.Steps[si]
-			def := Ops[st.Op]
-			if def == nil {
-				continue
-			}
-			tr.env.Resolve(st, &a)
-			sHotSteps = sHotSteps[:0]
-			beginOp(soloOpCap)
-			o := Exec(def, &a)
-			n := opSteps()
-			if o.Hang || local+n > soloRunCap {
-				// the fault-free solo execution itself is too long for the
-				// simulator's budget (e.g. Cbrt of 1E-99999 loops ~10^5 times):
-				// not a verdict, the run is skipped
-				sRecordHot = false
-				setMode(modeOff)
-				res.Stats["skipped_budget"] = 1
-				res.Sig = planSig(p)
-				res.Digest = "skipped"
-				return res, stats
-			}
-			tr.base[si] = stepBase{out: o, steps: n, start: local, hot: append([]uint64(nil), sHotSteps...)}
-			local += n
-		}
-		runs[ti] = tr
+	for ti := range runs {
+		runs[ti] = &c18TaskRun{base: make([]stepBase, len(p.Tasks[ti].Steps))}
 	}
-	sRecordHot = false
-	setMode(modeOff)
-	c18Monitor()
-	if v := worldViolated(); v != "" {
-		addViol(plan.Violation{Property: "C18", Class: "C18/shared-modified-solo", Key: v, Detail: "shared " + v + " modified during solo baseline: " + describeShared(w, v)})
-		return res, stats
-	}
-	gs := globalSnap
-	if gs != nil {
-		if d := gs.Check(); d != "" {
-			addViol(plan.Violation{Property: "C18", Class: "C18/globals-modified", Key: d, Detail: "package state changed during solo baseline: " + d})
-			return res, stats
-		}
-	}
-
-	// Schedule.
-	if p.Schedule == nil {
-		p.Schedule = genSchedule(p, runs)
-	}
-	sort.SliceStable(p.Schedule.Preempt, func(i, j int) bool {
-		a, b := p.Schedule.Preempt[i], p.Schedule.Preempt[j]
-		if a.Task != b.Task {
-			return a.Task < b.Task
-		}
-		return a.At < b.At
-	})
-
-	if soloOnly {
+	skipped := func() (*plan.Result, *C18Stats) {
+		// the fault-free solo execution itself is too long for the simulator's
+		// budget (e.g. Cbrt of 1E-99999 loops ~10^5 times): not a verdict
+		sRecordHot = false
+		setMode(modeOff)
+		res.Violations = nil
+		res.Stats["skipped_budget"] = 1
+		res.Sig = planSig(p)
+		res.Digest = "skipped"
 		return res, stats
 	}
 
-	// Phase 2: concurrent execution under the plan's schedule.
-	for ti := range p.Tasks {
-		// fresh private state
-		env := buildTaskEnv(w, &p.Tasks[ti], w.ctxs[0])
-		runs[ti].env = env
-	}
-	resetSched(len(p.Tasks), p.Schedule, keepLog)
-	sMonitor = c18Monitor
-	// op-boundary table for in-flight statistics
-	var wg sync.WaitGroup
-	setMode(modeSched)
-	for ti := range p.Tasks {
-		wg.Add(1)
-		go func(ti int) {
-			defer wg.Done()
-			waitTurn(ti)
+	// Solo phase: every task's program alone, on this goroutine. It gives the
+	// specification of each call (its solo outcome) and the local step indices.
+	solo := func() (ok bool, abort bool) {
+		setMode(modeCount)
+		sRecordHot = true
+		defer func() { sRecordHot = false; setMode(modeOff) }()
+		for ti := range p.Tasks {
 			tk := &p.Tasks[ti]
 			tr := runs[ti]
+			tr.env = buildTaskEnv(w, tk, w.ctxs[0])
 			var a Args
+			var local uint64
 			for si := range tk.Steps {
-				if aborted() {
-					break
-				}
 				st := &tk.Steps[si]
 				def := Ops[st.Op]
 				if def == nil {
 					continue
 				}
 				tr.env.Resolve(st, &a)
-				setInOp(ti, int32(si))
-				setTaskBudget(ti, 20*tr.base[si].steps+2_000_000)
+				sHotSteps = sHotSteps[:0]
+				beginOp(soloOpCap)
 				o := Exec(def, &a)
-				setInOp(ti, -1)
-				if o != tr.base[si].out {
-					tr.viol = &plan.Violation{Property: "C18", Class: "C18/solo-mismatch/" + st.Op, Key: st.Op,
-						Detail: fmt.Sprintf("task %d step %d %s: concurrent outcome differs from solo run\n  solo:       %s\n  concurrent: %s", ti, si, st.Op, tr.base[si].out, o), Task: ti, Step: si}
-					setAbort()
-					break
+				n := opSteps()
+				if o.Hang || local+n > soloRunCap {
+					return false, false
 				}
-				tr.digest = plan.Mix(tr.digest ^ hashString(o.String()))
+				tr.base[si] = stepBase{out: o, steps: n, start: local, hot: append([]uint64(nil), sHotSteps...)}
+				local += n
 			}
-			finish(ti)
-		}(ti)
+		}
+		c18Monitor()
+		if v := worldViolated(); v != "" {
+			addViol(plan.Violation{Property: "C18", Class: "C18/shared-modified-solo", Key: v, Detail: "shared " + v + " modified during solo baseline: " + describeShared(w, v)})
+			return true, true
+		}
+		if gs != nil {
+			if d := gs.Check(); d != "" {
+				addViol(plan.Violation{Property: "C18", Class: "C18/globals-modified", Key: firstWord(d), Detail: "package state changed during solo baseline: " + d})
+				return true, true
+			}
+		}
+		return true, false
 	}
-	wg.Wait()
-	setMode(modeOff)
-	sMonitor = nil
-	c18Monitor()
 
-	stats.Steps = clock()
-	stats.Switches = sSwitches
+	// Concurrent phase under the plan's schedule. With a baseline available
+	// each step is compared as it completes; otherwise (cold mode) outcomes
+	// are recorded and compared once the solo phase has run.
+	conc := make([][]Outcome, len(p.Tasks))
+	concurrent := func(haveBase bool) {
+		for ti := range p.Tasks {
+			runs[ti].env = buildTaskEnv(w, &p.Tasks[ti], w.ctxs[0])
+			conc[ti] = make([]Outcome, len(p.Tasks[ti].Steps))
+		}
+		resetSched(len(p.Tasks), p.Schedule, keepLog)
+		sMonitor = c18Monitor
+		var wg sync.WaitGroup
+		setMode(modeSched)
+		for ti := range p.Tasks {
+			wg.Add(1)
+			go func(ti int) {
+				defer wg.Done()
+				waitTurn(ti)
+				tk := &p.Tasks[ti]
+				tr := runs[ti]
+				var a Args
+				for si := range tk.Steps {
+					if aborted() {
+						break
+					}
+					st := &tk.Steps[si]
+					def := Ops[st.Op]
+					if def == nil {
+						continue
+					}
+					tr.env.Resolve(st, &a)
+					setInOp(ti, int32(si))
+					if haveBase {
+						setTaskBudget(ti, 20*tr.base[si].steps+2_000_000)
+					} else {
+						setTaskBudget(ti, soloOpCap)
+					}
+					o := Exec(def, &a)
+					setInOp(ti, -1)
+					conc[ti][si] = o
+					if haveBase && o != tr.base[si].out {
+						tr.viol = &plan.Violation{Property: "C18", Class: "C18/solo-mismatch/" + st.Op, Key: st.Op,
+							Detail: fmt.Sprintf("task %d step %d %s: concurrent outcome differs from solo run\n  solo:       %s\n  concurrent: %s", ti, si, st.Op, tr.base[si].out, o), Task: ti, Step: si}
+						setAbort()
+						break
+					}
+					if !haveBase && o.Hang {
+						tr.hung = true
+						setAbort()
+						break
+					}
+					tr.digest = plan.Mix(tr.digest ^ hashString(o.String()))
+				}
+				finish(ti)
+			}(ti)
+		}
+		wg.Wait()
+		setMode(modeOff)
+		sMonitor = nil
+		c18Monitor()
+		stats.Steps = clock()
+		stats.Switches = sSwitches
+	}
+
+	sortSchedule := func() {
+		sort.SliceStable(p.Schedule.Preempt, func(i, j int) bool {
+			a, b := p.Schedule.Preempt[i], p.Schedule.Preempt[j]
+			if a.Task != b.Task {
+				return a.Task < b.Task
+			}
+			return a.At < b.At
+		})
+	}
+
+	if !p.Cold {
+		ok, abort := solo()
+		if !ok {
+			return skipped()
+		}
+		if abort {
+			return res, stats
+		}
+		if p.Schedule == nil {
+			p.Schedule = genSchedule(p, runs)
+		}
+		sortSchedule()
+		if soloOnly {
+			return res, stats
+		}
+		concurrent(true)
+	} else {
+		// cold mode: the concurrent phase comes first, so that lazily
+		// initialised state (caches, sync.Once, pools) is first touched by
+		// concurrent tasks and not warmed by the solo phase.
+		if p.Schedule == nil {
+			p.Schedule = genBlindSchedule(p)
+		}
+		sortSchedule()
+		if soloOnly {
+			return res, stats
+		}
+		concurrent(false)
+		hung := false
+		for _, tr := range runs {
+			hung = hung || tr.hung
+		}
+		sw, steps := stats.Switches, stats.Steps
+		evh := sEvHash
+		ok, abort := solo()
+		stats.Switches, stats.Steps = sw, steps
+		sEvHash = evh
+		if !ok {
+			return skipped()
+		}
+		if hung {
+			addViol(plan.Violation{Property: "C18", Class: "C18/hang", Key: "hang", Detail: "an operation exceeded the step budget in the concurrent phase but completes when run alone"})
+		}
+		if !abort && !hung {
+			for ti, tr := range runs {
+				for si := range tr.base {
+					if conc[ti][si] != tr.base[si].out && Ops[p.Tasks[ti].Steps[si].Op] != nil {
+						st := &p.Tasks[ti].Steps[si]
+						tr.viol = &plan.Violation{Property: "C18", Class: "C18/solo-mismatch/" + st.Op, Key: st.Op,
+							Detail: fmt.Sprintf("task %d step %d %s: concurrent outcome (cold process state) differs from solo run\n  solo:       %s\n  concurrent: %s", ti, si, st.Op, tr.base[si].out, conc[ti][si]), Task: ti, Step: si}
+						break
+					}
+				}
+			}
+		}
+	}
+
 	for ti, tr := range runs {
 		if tr.viol != nil {
 			addViol(*tr.viol)
@@ -454,7 +531,9 @@ func runC18(p *plan.Plan, keepLog bool, soloOnly bool) (*plan.Result, *C18Stats)
 	}
 	if gs != nil {
 		if d := gs.Check(); d != "" {
-			addViol(plan.Violation{Property: "C18", Class: "C18/globals-modified", Key: d, Detail: "package state changed: " + d})
+			addViol(plan.Violation{Property: "C18", Class: "C18/globals-modified", Key: firstWord(d), Detail: "package state changed: " + d})
+		} else if w.globalsSuspect > 0 {
+			gs.Rebase()
 		}
 	}
 	// statistics on where preemptions landed
@@ -486,13 +565,45 @@ func runC18(p *plan.Plan, keepLog bool, soloOnly bool) (*plan.Result, *C18Stats)
 	}
 	res.Digest = fmt.Sprintf("%016x-%016x-%d", dg, sEvHash, stats.Switches)
 	res.Stats["steps"] = stats.Steps
-	res.Stats["switches"] = stats.Switches
-	res.Stats["inop_switches"] = stats.InOpSwitches
-	res.Stats["hot_switches"] = stats.HotSwitches
+	res.Stats["fault_preempt"] = stats.Switches
+	res.Stats["fault_preempt_inside_op_on_shared_operand"] = stats.InOpSwitches
+	res.Stats["fault_preempt_right_after_table_pointer"] = stats.HotSwitches
+	res.Stats["globals_hash_suspect_switches"] = w.globalsSuspect
+	if p.Cold {
+		res.Stats["cold_runs"] = 1
+	}
+	for k := range stats.Overlap {
+		res.Stats["overlap_"+k]++
+	}
 	res.Stats["ops"] = stats.Ops
 	res.Stats["tasks"] = uint64(len(p.Tasks))
 	res.Sig = planSig(p)
 	return res, stats
+}
+
+// genBlindSchedule draws a schedule without knowing step counts (cold mode):
+// every task is preempted periodically; entries beyond a task's actual length
+// simply never fire.
+func genBlindSchedule(p *plan.Plan) *plan.Schedule {
+	r := plan.NewRng(plan.Derive(p.Seed, p.Run, 181818))
+	k := len(p.Tasks)
+	sch := &plan.Schedule{First: r.Intn(k)}
+	for t := 0; t < k; t++ {
+		period := uint64([]int{40, 150, 600, 2500, 10000}[r.Intn(5)])
+		at := uint64(1 + r.Intn(int(period)))
+		for j := 0; j < 600; j++ {
+			to := t
+			if k > 1 {
+				to = r.Intn(k - 1)
+				if to >= t {
+					to++
+				}
+			}
+			sch.Preempt = append(sch.Preempt, plan.Preempt{Task: t, At: at, To: to})
+			at += 1 + uint64(r.Intn(int(2*period)))
+		}
+	}
+	return sch
 }
 
 func describeShared(w *c18World, v string) string {
